@@ -71,6 +71,9 @@ pub struct PathResult {
     pub div_action: Option<String>,
     pub div_what: Vec<String>,
     pub skipped: usize,
+    /// the code resolved a choice the harness cannot control differently from this path
+    /// (allowed by the specification): the rest of the path was not followed
+    pub inconclusive: bool,
 }
 
 fn is_call_pc(pc: &str) -> Option<CallKind> {
